@@ -915,6 +915,8 @@ class Interp:
                     new_dims.append(cur_dims[ax]); ax += 1
                     continue
                 v = self.expr(ix, env, mod)
+                if isinstance(v, _WhereIdx):
+                    v = v.mask                  # the positions where a mask holds, used as an index: the selection the mask itself makes
                 if isinstance(v, type(Ellipsis)) or (isinstance(ix, ast.Constant) and ix.value is Ellipsis):
                     rest = len(idx) - idx.index(ix) - 1
                     while len(cur_dims) - ax > rest:
@@ -1662,6 +1664,9 @@ class Interp:
                 # a slice object built with slice(lo, hi, step): the same as the literal lo:hi:step
                 vals[k_] = x_
         for k_, x_ in enumerate(vals):
+            if isinstance(x_, _WhereIdx):
+                vals[k_] = x_.mask              # the positions where a mask holds, used as an index: the selection the mask itself makes
+        for k_, x_ in enumerate(vals):
             if isinstance(x_, _SelIdx):
                 if v.mask is not None and v.mask == x_.mask:
                     return Unk('gather within a compressed selection', e)
@@ -2071,10 +2076,19 @@ class Interp:
                     lab_ = x_.dims[0]            # x[1:] - x[:-1]
                     return Arr((lab_ + '~',), alg.relabel(x_.poly, lab_, lab_ + '~', '@+1') - alg.relabel(x_.poly, lab_, lab_ + '~', '@0'), unit=x_.unit)
                 return Unk('np.diff', e)
+            if name.endswith('multiply.outer') and len(args) == 2 and not kw:
+                # out[i..., j...] = a[i...] * b[j...] for operands of any rank
+                a_, b_ = self._as_arr(args[0]), self._as_arr(args[1])
+                if isinstance(a_, Arr) and isinstance(b_, Arr) and a_.mask is None and b_.mask is None and not (set(d_ for d_ in a_.dims if d_) & set(d_ for d_ in b_.dims if d_)):
+                    return Arr(tuple(a_.dims) + tuple(b_.dims), a_.poly * b_.poly, unit=_umul(a_.unit, b_.unit))
+                return Unk('np.multiply.outer', e)
             if last == 'outer' and len(args) == 2 and not kw:
                 a_, b_ = self._as_arr(args[0]), self._as_arr(args[1])
-                if isinstance(a_, Arr) and isinstance(b_, Arr) and a_.ndim == 1 and b_.ndim == 1 and a_.dims[0] != b_.dims[0] and a_.mask is None and b_.mask is None:
-                    return Arr((a_.dims[0], b_.dims[0]), a_.poly * b_.poly, unit=_umul(a_.unit, b_.unit))
+                if isinstance(a_, Arr) and isinstance(b_, Arr) and a_.ndim == 1 and b_.ndim == 1 and a_.dims[0] != b_.dims[0]:
+                    mk_ = _merge_mask(a_, b_)              # rows / columns of a compressed selection stay those of the selection
+                    if isinstance(mk_, Unk):
+                        return mk_
+                    return Arr((a_.dims[0], b_.dims[0]), a_.poly * b_.poly, mk_, unit=_umul(a_.unit, b_.unit))
                 return Unk('np.outer', e)
             if last == 'dot' and len(args) == 2 and not kw:
                 # contraction of the last axis of a with the first axis of b (1-D . 1-D, 2-D . 1-D, 1-D . 2-D, 2-D . 2-D)
